@@ -164,11 +164,19 @@ def fillGo (st : State) : Nat → Nat → State
     let (st, _) := localWrite st [.ins "t" s!"i{n}" [("a", .text [0x66])]] false
     fillGo st (n + 1) fuel
 
-/-- impactful changes of one peer version applied to A, in order -/
-def applyVersion (a : Db) (chs : List Chg) : Db × List Chg :=
-  chs.foldl (fun (acc : Db × List Chg) c =>
-    let a' := merge acc.1 c
-    if a'.rows != acc.1.rows then (a', acc.2 ++ [c]) else (a', acc.2)) (a, [])
+/-- `process_complete_version` for one peer version inside the transaction of
+`process_multiple_changes`: a change is kept as "impactful" when `crsql_rows_impacted()` exceeds
+`last_rows_impacted`.  As the code stands, `last_rows_impacted` restarts at 0 for every changeset while
+`crsql_rows_impacted()` counts since the beginning of the TRANSACTION (`impacted` below): the first
+change of a changeset is therefore also kept when an EARLIER changeset of the same batch had an
+impact, whether or not it changed anything itself. -/
+def applyVersion (a : Db) (impacted : Nat) (chs : List Chg) : Db × Nat × List Chg :=
+  let r := chs.foldl (fun (acc : Db × Nat × Nat × List Chg) c =>
+    let (a, imp, last, kept) := acc
+    let a' := merge a c
+    let imp' := if a'.rows != a.rows then imp + 1 else imp
+    (a', imp', imp', if imp' > last then kept ++ [c] else kept)) (a, impacted, 0, [])
+  (r.1, r.2.1, r.2.2.2)
 
 def step (st : State) (toks : List String) : Option (State × String) :=
   match toks with
@@ -219,15 +227,15 @@ def step (st : State) (toks : List String) : Option (State × String) :=
     if vs.isEmpty then none else
     if vs.any (fun v => (st.blog.find? (·.1 = v)).isNone) then pure (st, "err no-such-version") else
     -- all versions are merged in one transaction, then notified in order
-    let (st, notes) := vs.foldl (fun (acc : State × List (List Chg)) v =>
-      let st := acc.1
+    let (st, _, notes) := vs.foldl (fun (acc : State × Nat × List (List Chg)) v =>
+      let (st, impacted, notes) := acc
       if st.applied.contains v then acc else
       match st.blog.find? (·.1 = v) with
       | none => acc
       | some (_, chs) =>
-        let (a', imp) := applyVersion st.a chs
-        ({ st with a := a', applied := v :: st.applied }, acc.2 ++ [imp])) (st, [])
-    pure (notes.foldl (fun s imp => s.notifyChanges imp) st, "ok")
+        let (a', impacted', kept) := applyVersion st.a impacted chs
+        ({ st with a := a', applied := v :: st.applied }, impacted', notes ++ [kept])) (st, 0, [])
+    pure (notes.foldl (fun s kept => s.notifyChanges kept) st, "ok")
   | ["force"] => do
     let p ← st.params
     let tok := s!"S{st.drains}"
